@@ -1483,3 +1483,31 @@ def sg_peak_widths(ex, x, peaks, **kw):
         f = z3.Function(f'pw{q}!{next(ex.fresh)}', z3.IntSort(), z3.RealSort())
         outs.append(Arr(list(peaks.shape), (lambda idx, f=f: f(tonum(idx[0]))), 'float'))
     return tuple(outs)
+
+
+@ext('numpy.flatnonzero')
+def np_flatnonzero(ex, a):
+    """indices of the non-zero entries of the flattened array = np.where(a.ravel() != 0)[0] (1-D arrays only)"""
+    a = _arr(ex, a)
+    if a.ndim != 1:
+        raise Unsupported('np.flatnonzero on nd arrays')
+    if a.kind != 'bool':
+        a0 = a
+        a = Arr(list(a0.shape), lambda idx: tobool(s_ne(a0.elem(idx), 0)), 'bool')
+        a.meta = getattr(a0, 'meta', None)
+    return np_where(ex, a)[0]
+
+
+@ext('numpy.atleast_1d')
+def np_atleast_1d(ex, a):
+    """0-d -> shape (1,) view; anything else is returned as it is (numpy returns the same array object)"""
+    if not isinstance(a, (Arr, np.ndarray)):
+        if isinstance(a, (list, tuple)):
+            return from_seq(ex, a)
+        v = a
+        return Arr([1], lambda idx: v, scalar_kind(v))
+    a = _arr(ex, a)
+    if a.ndim == 0:
+        a0 = a
+        return Arr([1], lambda idx: a0.at(), a0.kind, prov=a0.prov, view=True, np_dtype=a0.np_dtype)
+    return a
